@@ -104,7 +104,37 @@ def _check_value(decode, s, n, viol):
         viol.append({"cls": "decode-wrong-value", "msg": "decode(%r) = %r, expected %d" % (s, got, n)})
 
 
+_LINE = "ATOM  %5s  N   ALA A   1      11.000  12.000  13.000  1.00  0.00           N"
+
+
+def record_door(s):
+    """The serial field as it is met in practice: columns 7-11 of an atom record read by Atom(line=...)."""
+    import propka.atom
+    return propka.atom.Atom(line=_LINE % s).numb
+
+
+def _check_record_door(s, viol, counts):
+    """A field of five columns, right-justified: what the decoder must reject, the record reader rejects too."""
+    fld = s.rjust(5)[:5]
+    exp = ref.expected(fld)
+    counts["record_door_fields"] = counts.get("record_door_fields", 0) + 1
+    try:
+        got = record_door(fld)
+    except ValueError:
+        got = ValueError
+    except Exception as e:
+        viol.append({"cls": "record-door-wrong-exception", "msg": "atom record with serial field %r raised %s" % (fld, type(e).__name__)})
+        return
+    if exp[0] == "value":
+        if got != exp[1]:
+            viol.append({"cls": "record-door-wrong-value", "msg": "atom record with serial field %r read as %r, expected %d" % (fld, got, exp[1])})
+    elif got is not ValueError:
+        viol.append({"cls": "record-door-accepts-malformed-serial", "msg": "atom record with serial field %r read as %r, expected ValueError" % (fld, got)})
+
+
 def _check_malformed(decode, s, viol, counts):
+    if len(s) <= 5 and (len(s) < 4 or counts.get("malformed", 0) % 5 == 0):
+        _check_record_door(s, viol, counts)
     exp = ref.expected(s)
     if exp[0] == "value":
         counts["valid_in_malformed_enum"] = counts.get("valid_in_malformed_enum", 0) + 1
@@ -213,7 +243,7 @@ def run_case(case, tier):
             if len(viol) > 40:
                 break
         if w == 1:
-            for s in ("", " ", "     ", "\t", "-", " - "):
+            for s in ("", " ", "     ", "\t", "-", " - ", "\uff11\uff12", "\u0661\u0662\u0663", "1\t2", "1 2", "+12", "1_2", "1e2", "0x1f", "1.0"):
                 _check_malformed(decode, s, viol, counts)
         sample = {"kind": kind, "w": w, "first": first}
     elif kind == "mal_rand":
@@ -268,6 +298,16 @@ def run_serial_case(case, viol, counts):
     opts = list(rng.choice(([], [], ["-k"], ["--protonate-all"], ["-k", "--protonate-all"], ["-k", "--protonate-all"], ["-d"])))
     with_h = False
     door = case.get("door")
+    if not door and rng.random() < 0.35:
+        # nucleotides, ligand fragments and ions next to the protein: every kind of group label the report has
+        from .. import fragments
+        for k_ in range(rng.choice((1, 2))):
+            fname = rng.choice(sorted(f for f in fragments.FRAGMENTS) + ["dna:DA", "dna:DC", "dna:DG", "dna:DT"] * 3 + ["ion:ZN", "ion:CL"])
+            frag, _e, _d = fragments.place_near(recs, fname, rng, dist_A=rng.choice((3.0, 4.0, 6.0)), resnum=900 + k_,
+                                                chain=rng.choice(("L", "N")))
+            if frag:
+                recs = recs + ([pdbio.raw("TER")] if fname.startswith("dna:") else []) + frag
+                counts["inputs_with_hetero_or_dna"] = 1
     if door:
         opts = ["-k", "--protonate-all"]
         first = []
